@@ -295,7 +295,7 @@ impl C15 {
         out
     }
 
-    fn enum_unit(&self, u: u64, maxlen: usize, env: &Env) -> CaseOut {
+    pub fn enum_unit(&self, u: u64, maxlen: usize, env: &Env) -> CaseOut {
         // unit = prefix of 3 symbols (125 units); unit 0 also covers the shorter strings
         let mut out = CaseOut::default();
         let mut prefix = vec![];
